@@ -44,28 +44,22 @@ Theorem C11_multi_part_ops_atomic : forall p o,
 Proof. exact multi_part_ops_atomic. Qed.
 Print Assumptions C11_multi_part_ops_atomic.
 
-(* an already finalized input is not altered by AddInputs, AddOutputs, the three signers and the finalizers *)
-Theorem C11_finalized_inputs_frozen_partial : forall p o n a,
+(* an already finalized input is never altered: any packet, every multi-part operation and every finalizer *)
+Theorem C11_finalized_inputs_frozen : forall p o n a,
   frozen_scope o = true -> nth_error (p_auxs p) n = Some a -> finalized a = true ->
   nth_error (p_auxs (fst (step p o))) n = Some a.
-Proof. exact finalized_inputs_frozen_partial. Qed.
-Print Assumptions C11_finalized_inputs_frozen_partial.
+Proof. exact finalized_inputs_frozen. Qed.
+Print Assumptions C11_finalized_inputs_frozen.
 
-Theorem C11_finalized_inputs_frozen_refuted :
-  exists ins outs fb p0 ops o a, init ins outs fb = IOk p0 /\ is_multi_part o = true /\
-    nth_error (p_auxs (run p0 ops)) 0 = Some a /\ finalized a = true /\
-    snd (step (run p0 ops) o) = Ok /\ nth_error (p_auxs (fst (step (run p0 ops) o))) 0 <> Some a.
-Proof. exact finalized_inputs_frozen_refuted. Qed.
-Print Assumptions C11_finalized_inputs_frozen_refuted.
+(* after any operation history (the caller's TxModifiable values are three bits, the scalars the blinder's generator
+   returns are fresh) the packet serialises and re-parses to itself *)
+Theorem C11_reachable_roundtrips : forall ins outs fb p0 ops,
+  init ins outs fb = IOk p0 -> good_run p0 ops -> rt (run p0 ops) = true.
+Proof. exact reachable_roundtrips. Qed.
+Print Assumptions C11_reachable_roundtrips.
 
-(* serialises and re-parses to itself: what the creator builds from well-formed arguments *)
-Theorem C11_reachable_roundtrips_partial : forall ins outs fb p0,
-  init ins outs fb = IOk p0 -> Forall inarg_plain ins -> Forall outarg_plain outs -> rt p0 = true.
-Proof. exact reachable_roundtrips_partial. Qed.
-Print Assumptions C11_reachable_roundtrips_partial.
-
-Theorem C11_reachable_roundtrips_refuted_failed_setter :
-  exists ins outs fb p0 o, init ins outs fb = IOk p0 /\ rt p0 = true /\
-    snd (step p0 o) = Err /\ rt (fst (step p0 o)) = false.
-Proof. exact reachable_roundtrips_refuted_failed_setter. Qed.
-Print Assumptions C11_reachable_roundtrips_refuted_failed_setter.
+(* the side condition on the flags is needed *)
+Theorem C11_reachable_roundtrips_needs_three_bit_flags :
+  exists p0, init [] [] None = IOk p0 /\ rt (fst (step p0 (OSetMod (Some 8)))) = false.
+Proof. exact reachable_roundtrips_needs_three_bit_flags. Qed.
+Print Assumptions C11_reachable_roundtrips_needs_three_bit_flags.
